@@ -111,3 +111,10 @@ Definition run_spline_float (xi : list Q) (d : nat) (taus : list Q) (edges : boo
   (@eval_on_knots _ FloatOps (cvf xi) d (cvf taus) edges,
    @bspline_derivative _ FloatOps (cvf c) (cvf xi) d,
    @greville _ FloatOps (cvf xi) d).
+
+(* grid='inf' rows of affine constraints *)
+From RV Require Import Mech.Inf.
+Definition run_inf_float (oc : ocp) (ics : list iconstr) (pq : point Q) :=
+  let pt := @point_of_Q _ FloatOps pq in
+  let L := @lists_any _ FloatOps oc pt in
+  map (fun r => (Z.of_nat (rw_id r), rw_pt r, rw_h r)) (@inf_rows _ FloatOps L ics).
